@@ -5,10 +5,16 @@ from units.base import *
 TRUSTED = TRUSTED_COMMON + [
     "HashMap: vstd specs + get_mut prophecy spec + obeys_key_model for DomainName/Label/RecordType (prelude/hash.rs)",
     "R3 shim_hashmap_into_vec: consuming a HashMap yields each (key, value) pair once, values structurally smaller than the map (decreases_to)",
+    "DomainName == / != is structural (PartialEqSpec axioms for the derived impl)",
     "R8 shim_vec_contains: `xs.iter().any(|e| e == &y)` == xs@.contains(y) (derived PartialEq structural)",
 ]
 
-R3 = ("R3", r"for \(([a-z_, ]+)\) in ([a-z_\.]+)(?=\s)", r"for (\1) in it__: shim_hashmap_into_vec(\2)")
+def _r3(txt):
+    # R3: `for (PAT) in [name:] MAP` consuming a HashMap -> `for (PAT) in name: shim_hashmap_into_vec(MAP)`
+    import re
+    return re.subn(r"for \(([a-z_, ]+)\) in (?:([a-z_]+): )?([a-z_0-9\.]+)(?=\s)",
+                   lambda m: f"for ({m.group(1)}) in {m.group(2) or 'it__'}: shim_hashmap_into_vec({m.group(3)})", txt)
+R3 = ("R3", _r3)
 R5R8 = ("R5+R8", r"if ([a-z_]+)\.iter\(\)\.any\(\|e\| e == &([a-z_]+)\) \{\s*continue;\s*\}\s*([a-z_]+\.push\([a-z_]+\);)",
         r"if !(shim_vec_contains(\1, &\2)) { \3 }")
 
@@ -58,7 +64,151 @@ SPECS = {
     },
 }
 
+SPECS["ZoneRecords::merge"] = {"props": ["C12"], "rewrites": [R3], "depub": True,
+    "contract": """    ensures
+        final(self).nsdname == old(self).nsdname,
+        zrs_merged(old(self).this@, other.this@, final(self).this@), // [C12:node_records_are_union]
+        other.wildcards is Some ==> final(self).wildcards is Some, // [C12:wildcard_records_kept]
+        old(self).wildcards is Some ==> final(self).wildcards is Some, // [C12:wildcard_records_kept]
+        old(self).wildcards is None && other.wildcards is None ==> final(self).wildcards is None,
+        old(self).wildcards is Some && other.wildcards is Some ==> zrs_merged(old(self).wildcards->Some_0@, other.wildcards->Some_0@, final(self).wildcards->Some_0@), // [C12:wildcard_records_are_union]
+        old(self).wildcards is None && other.wildcards is Some ==> final(self).wildcards == other.wildcards, // [C12:wildcard_records_are_union]
+        old(self).wildcards is Some && other.wildcards is None ==> final(self).wildcards == old(self).wildcards, // [C12:wildcard_records_are_union]
+        forall|l: Label| #[trigger] final(self).children@.contains_key(l) <==> (old(self).children@.contains_key(l) || other.children@.contains_key(l)), // [C12:child_names_are_union]
+        forall|l: Label| #![trigger final(self).children@[l]] old(self).children@.contains_key(l) && !other.children@.contains_key(l) ==> final(self).children@[l] == old(self).children@[l], // [C12:child_only_here_unchanged]
+        forall|l: Label| #![trigger final(self).children@[l]] !old(self).children@.contains_key(l) && other.children@.contains_key(l) ==> final(self).children@[l] == other.children@[l], // [C12:child_only_there_taken_whole]
+    decreases other,""",
+    "entry": "broadcast use vstd::std_specs::hash::group_hash_axioms, axiom_rt_key_model, axiom_label_key_model, axiom_borrowed_key_updated;",
+    "loops": {"0": {"kw": "for", "spec": """        invariant
+            self.nsdname == old(self).nsdname, self.this == mid_this__@, self.wildcards == mid_wild__@,
+            it__.seq().len() == other.children@.dom().len(),
+            forall|i: int| 0 <= i < it__.seq().len() ==> other.children@.contains_key(#[trigger] it__.seq()[i].0) && other.children@[it__.seq()[i].0] == it__.seq()[i].1,
+            forall|k: Label| other.children@.contains_key(k) ==> exists|i: int| 0 <= i < it__.seq().len() && #[trigger] it__.seq()[i].0 == k,
+            forall|i: int, j: int| 0 <= i < j < it__.seq().len() ==> it__.seq()[i].0 != it__.seq()[j].0,
+            forall|i: int| 0 <= i < it__.seq().len() ==> decreases_to!(other => #[trigger] it__.seq()[i].1),
+            forall|l: Label| #[trigger] self.children@.contains_key(l) <==> (old(self).children@.contains_key(l) || exists|j: int| 0 <= j < it__.index@ && #[trigger] it__.seq()[j].0 == l),
+            forall|l: Label| #![trigger self.children@[l]] old(self).children@.contains_key(l) && !other.children@.contains_key(l) ==> self.children@[l] == old(self).children@[l],
+            forall|j: int| 0 <= j < it__.index@ && !old(self).children@.contains_key(#[trigger] it__.seq()[j].0) ==> self.children@[it__.seq()[j].0] == it__.seq()[j].1,""",
+        "entry": "broadcast use vstd::std_specs::hash::group_hash_axioms, axiom_label_key_model, axiom_borrowed_key_updated;"}},
+    "anchors": [{"after": "for (k, other_zrs) in other.children", "at": "before",
+                 "proof": "let ghost mid_this__ = Ghost(self.this); let ghost mid_wild__ = Ghost(self.wildcards);"}],
+}
+
+ZM_NODE = """        node_rest_merged(*old(self), other, *final(self)),"""
+SPECS["Zone::merge"] = {"props": ["C12"], "depub": True,
+    "contract": """    requires zone_soa_ok(*old(self)), zone_soa_ok(other),
+    ensures
+        r is Err <==> old(self).apex != other.apex, // [C12:merge_rejects_only_foreign_apex]
+        r is Err ==> *final(self) == *old(self),
+        r is Ok ==> final(self).apex == old(self).apex,
+        r is Ok ==> final(self).soa == (if other.soa is Some { other.soa } else { old(self).soa }), // [C12:last_soa_wins]
+        r is Ok ==> zone_soa_ok(*final(self)), // [C12:exactly_one_soa]
+        r is Ok ==> zrs_merged(old(self).records.this@.remove(RecordType::SOA), other.records.this@.remove(RecordType::SOA), final(self).records.this@.remove(RecordType::SOA)), // [C12:zone_records_are_union]
+        r is Ok ==> node_rest_merged(old(self).records, other.records, final(self).records), // [C12:zone_wildcards_and_children_merged]""",
+    "entry": "broadcast use vstd::std_specs::hash::group_hash_axioms, axiom_rt_key_model, axiom_dn_eq_structural, axiom_dn_obeys_eq;",
+    "anchors": [{"after": "self.records.merge(other.records);", "proof": """proof {
+    if other.soa is None && old(self).soa is Some {
+        let f = self.records.this@[RecordType::SOA]@; let o = old(self).records.this@[RecordType::SOA]@;
+        assert(o.no_duplicates());
+        assert(f.no_duplicates());
+        assert(f[0] == o[0]);
+        if f.len() > 1 { assert(o.contains(f[1])); assert(f[1] == o[0]); assert(false); }
+        assert(f =~= o);
+    }
+}"""}],
+}
+SPECS["Zones::insert"] = {"props": ["C12"], "depub": True,
+    "contract": """    requires old(self).wf(), zone_soa_ok(zone),
+    ensures final(self).zones@ == old(self).zones@.insert(zone.apex, zone), final(self).wf(),""",
+    "entry": "broadcast use vstd::std_specs::hash::group_hash_axioms, axiom_dn_key_model;"}
+SPECS["Zones::insert_merge"] = {"props": ["C12"], "depub": True,
+    "contract": """    requires old(self).wf(), zone_soa_ok(other_zone),
+    ensures final(self).wf(),
+        forall|k: DomainName| #[trigger] final(self).zones@.contains_key(k) <==> (old(self).zones@.contains_key(k) || k == other_zone.apex), // [C12:zone_set_is_union]
+        forall|k: DomainName| #![trigger final(self).zones@[k]] old(self).zones@.contains_key(k) && k != other_zone.apex ==> final(self).zones@[k] == old(self).zones@[k], // [C12:other_zones_untouched]
+        !old(self).zones@.contains_key(other_zone.apex) ==> final(self).zones@[other_zone.apex] == other_zone, // [C12:new_apex_inserted_whole]
+        old(self).zones@.contains_key(other_zone.apex) ==> zone_merged(old(self).zones@[other_zone.apex], other_zone, final(self).zones@[other_zone.apex]), // [C12:same_apex_merged]""",
+    "entry": "broadcast use vstd::std_specs::hash::group_hash_axioms, axiom_dn_key_model, axiom_borrowed_key_updated;"}
+SPECS["Hosts::merge"] = {"props": ["C12"], "rewrites": [R3],
+    "contract": """    ensures
+        final(self).v4@ == old(self).v4@.union_prefer_right(other.v4@), // [C12:hosts_later_file_wins_v4]
+        final(self).v6@ == old(self).v6@.union_prefer_right(other.v6@), // [C12:hosts_later_file_wins_v6]""",
+    "entry": "broadcast use vstd::std_specs::hash::group_hash_axioms, axiom_dn_key_model;",
+    "loops": {
+        "0": {"kw": "for", "spec": """        invariant self.v6 == old(self).v6,
+            it__.seq().len() == other.v4@.dom().len(),
+            forall|i: int| 0 <= i < it__.seq().len() ==> other.v4@.contains_key(#[trigger] it__.seq()[i].0) && other.v4@[it__.seq()[i].0] == it__.seq()[i].1,
+            forall|k: DomainName| other.v4@.contains_key(k) ==> exists|i: int| 0 <= i < it__.seq().len() && #[trigger] it__.seq()[i].0 == k,
+            forall|i: int, j: int| 0 <= i < j < it__.seq().len() ==> it__.seq()[i].0 != it__.seq()[j].0,
+            forall|k: DomainName| #[trigger] self.v4@.contains_key(k) <==> (old(self).v4@.contains_key(k) || exists|j: int| 0 <= j < it__.index@ && #[trigger] it__.seq()[j].0 == k),
+            forall|j: int| 0 <= j < it__.index@ ==> self.v4@[#[trigger] it__.seq()[j].0] == it__.seq()[j].1,
+            forall|k: DomainName| #![trigger self.v4@[k]] old(self).v4@.contains_key(k) && !(exists|j: int| 0 <= j < it__.index@ && #[trigger] it__.seq()[j].0 == k) ==> self.v4@[k] == old(self).v4@[k],""",
+              "entry": "broadcast use vstd::std_specs::hash::group_hash_axioms, axiom_dn_key_model;"},
+        "1": {"kw": "for", "iter_name": "jt__", "spec": """        invariant self.v4@ == old(self).v4@.union_prefer_right(other.v4@),
+            jt__.seq().len() == other.v6@.dom().len(),
+            forall|i: int| 0 <= i < jt__.seq().len() ==> other.v6@.contains_key(#[trigger] jt__.seq()[i].0) && other.v6@[jt__.seq()[i].0] == jt__.seq()[i].1,
+            forall|k: DomainName| other.v6@.contains_key(k) ==> exists|i: int| 0 <= i < jt__.seq().len() && #[trigger] jt__.seq()[i].0 == k,
+            forall|i: int, j: int| 0 <= i < j < jt__.seq().len() ==> jt__.seq()[i].0 != jt__.seq()[j].0,
+            forall|k: DomainName| #[trigger] self.v6@.contains_key(k) <==> (old(self).v6@.contains_key(k) || exists|j: int| 0 <= j < jt__.index@ && #[trigger] jt__.seq()[j].0 == k),
+            forall|j: int| 0 <= j < jt__.index@ ==> self.v6@[#[trigger] jt__.seq()[j].0] == jt__.seq()[j].1,
+            forall|k: DomainName| #![trigger self.v6@[k]] old(self).v6@.contains_key(k) && !(exists|j: int| 0 <= j < jt__.index@ && #[trigger] jt__.seq()[j].0 == k) ==> self.v6@[k] == old(self).v6@[k],""",
+              "entry": "broadcast use vstd::std_specs::hash::group_hash_axioms, axiom_dn_key_model;"},
+    },
+    "anchors": [{"after": "for (name, address) in other.v6", "at": "before",
+                 "proof": "assert(self.v4@ =~= old(self).v4@.union_prefer_right(other.v4@));"}],
+}
+
 SPEC_RS = """
+pub open spec fn soa_zr(s: SOA) -> ZoneRecord {
+    ZoneRecord { rtype_with_data: RecordTypeWithData::SOA { mname: s.mname, rname: s.rname, serial: s.serial, refresh: s.refresh, retry: s.retry, expire: s.expire, minimum: s.minimum }, ttl: s.minimum }
+}
+// "has exactly one SOA": the zone's SOA field and the SOA record set at its apex agree
+spec fn zone_soa_ok(z: Zone) -> bool {
+    match z.soa {
+        Some(s) => z.records.this@.contains_key(RecordType::SOA) && z.records.this@[RecordType::SOA]@ == seq![soa_zr(s)],
+        None => !z.records.this@.contains_key(RecordType::SOA),
+    }
+}
+// wildcard and children clauses of a node merge (the `this` map is stated separately)
+spec fn node_rest_merged(a: ZoneRecords, b: ZoneRecords, r: ZoneRecords) -> bool {
+    &&& r.nsdname == a.nsdname
+    &&& (b.wildcards is Some ==> r.wildcards is Some)
+    &&& (a.wildcards is Some ==> r.wildcards is Some)
+    &&& (a.wildcards is None && b.wildcards is None ==> r.wildcards is None)
+    &&& (a.wildcards is Some && b.wildcards is Some ==> zrs_merged(a.wildcards->Some_0@, b.wildcards->Some_0@, r.wildcards->Some_0@))
+    &&& (a.wildcards is None && b.wildcards is Some ==> r.wildcards == b.wildcards)
+    &&& (a.wildcards is Some && b.wildcards is None ==> r.wildcards == a.wildcards)
+    &&& forall|l: Label| #[trigger] r.children@.contains_key(l) <==> (a.children@.contains_key(l) || b.children@.contains_key(l))
+    &&& forall|l: Label| #![trigger r.children@[l]] a.children@.contains_key(l) && !b.children@.contains_key(l) ==> r.children@[l] == a.children@[l]
+    &&& forall|l: Label| #![trigger r.children@[l]] !a.children@.contains_key(l) && b.children@.contains_key(l) ==> r.children@[l] == b.children@[l]
+}
+spec fn zone_merged(a: Zone, b: Zone, r: Zone) -> bool {
+    &&& r.apex == a.apex
+    &&& r.soa == (if b.soa is Some { b.soa } else { a.soa }) // C12: the SOA of the last file supplying one
+    &&& zone_soa_ok(r)                                       // C12: exactly one SOA
+    &&& zrs_merged(a.records.this@.remove(RecordType::SOA), b.records.this@.remove(RecordType::SOA), r.records.this@.remove(RecordType::SOA))
+    &&& node_rest_merged(a.records, b.records, r.records)
+}
+impl Zones {
+    spec fn wf(&self) -> bool {
+        forall|k: DomainName| #[trigger] self.zones@.contains_key(k) ==> self.zones@[k].apex == k && zone_soa_ok(self.zones@[k])
+    }
+}
+pub broadcast axiom fn axiom_dn_eq_structural(a: DomainName, b: DomainName)
+    ensures #[trigger] a.eq_spec(&b) == (a == b);
+pub broadcast axiom fn axiom_dn_obeys_eq()
+    ensures #[trigger] <DomainName as vstd::std_specs::cmp::PartialEqSpec>::obeys_eq_spec();
+
+// the five clauses merge_zrs_helper guarantees, as one predicate (old, other, result)
+pub open spec fn zrs_merged(a: Map<RecordType, Vec<ZoneRecord>>, b: Map<RecordType, Vec<ZoneRecord>>, r: Map<RecordType, Vec<ZoneRecord>>) -> bool {
+    &&& forall|t: RecordType| #[trigger] r.contains_key(t) <==> (a.contains_key(t) || b.contains_key(t))
+    &&& forall|t: RecordType| #![trigger r[t]] a.contains_key(t) ==> is_prefix_of(a[t]@, r[t]@)
+    &&& forall|t: RecordType, i: int| #![trigger b[t]@[i]] b.contains_key(t) && 0 <= i < b[t]@.len() ==> r[t]@.contains(b[t]@[i])
+    &&& forall|t: RecordType, j: int| #![trigger r[t]@[j]] r.contains_key(t) && 0 <= j < r[t]@.len() ==>
+            (a.contains_key(t) && a[t]@.contains(r[t]@[j])) || (b.contains_key(t) && b[t]@.contains(r[t]@[j]))
+    &&& forall|t: RecordType| #![trigger r[t]] a.contains_key(t) && a[t]@.no_duplicates() ==> r[t]@.no_duplicates()
+    &&& forall|t: RecordType| #![trigger r[t]] !a.contains_key(t) && b.contains_key(t) ==> r[t] == b[t]
+}
 pub open spec fn is_prefix_of<T>(a: Seq<T>, b: Seq<T>) -> bool { a.len() <= b.len() && forall|i: int| 0 <= i < a.len() ==> a[i] == #[trigger] b[i] }
 """
 
@@ -73,6 +223,12 @@ def build(G):
     G.raw(SPEC_RS, ("spec", "zone_merge spec"))
     Z = G.src(ZTYPES)
     G.top_fn(Z, "merge_zrs_helper", SPECS)
+    G.impl(Z, "ZoneRecords", ["merge"], "ZoneRecords::", SPECS)
+    G.impl(Z, "Zone", ["merge"], "Zone::", SPECS)
+    G.impl(Z, "Zones", ["insert", "insert_merge"], "Zones::", SPECS)
+    H = G.src(HTYPES)
+    G.item(H, "struct", "Hosts", drop_derive=("Clone",))
+    G.impl(H, "Hosts", ["merge"], "Hosts::", SPECS)
     end(G)
 
 
